@@ -40,6 +40,9 @@ type Root struct {
 	// copyOf: set when the whole root was initialised by one copy from another slice
 	elemBool bool
 	ln       Aff // total length of the root
+	// elemWritten: some element (or a field of one) of a struct-element slice was stored to;
+	// element fields then no longer have a canonical input value
+	elemWritten bool
 }
 
 // ASlice is a view [off, off+ln) of a root.
